@@ -176,7 +176,37 @@ func (s *SelectStmt) ValidateFields(ctx *CheckCtx) error {
 			return err
 		}
 	}
+	// A field must not be defined, directly or through other fields, in terms
+	// of itself: evaluating it would never end
+	for _, f := range s.Fields {
+		if ref := findFieldReferenceCycle(f, map[string]bool{}); ref != nil {
+			return NewSyntaxError(ref.GetPos(), "Field %s is defined in terms of itself", ref.Name.Data)
+		}
+	}
 	return nil
+}
+
+func findFieldReferenceCycle(expr Expression, path map[string]bool) *FieldReferenceExpr {
+	var found *FieldReferenceExpr
+	expr.Walk(func(e Expression) bool {
+		if found != nil {
+			return false
+		}
+		if ref, ok := e.(*FieldReferenceExpr); ok {
+			name := ref.Name.Data
+			if path[name] {
+				found = ref
+				return false
+			}
+			path[name] = true
+			found = findFieldReferenceCycle(ref.FieldExpr, path)
+			delete(path, name)
+			// Do not let Walk descend into the referenced field again
+			return false
+		}
+		return true
+	})
+	return found
 }
 
 func (s *SelectStmt) validateField(f Expression, ctx *CheckCtx) error {
